@@ -51,7 +51,7 @@ class Ctx:
         return out
 
 
-def base_inputs(ctx, soup_n, trunc_n=0, lf_n=0, mb_n=0, case_n=0, corpus_trunc=0):
+def base_inputs(ctx, soup_n, trunc_n=0, lf_n=0, mb_n=0, case_n=0, corpus_trunc=0, gen_n=0):
     """The shared input sources of DESIGN.md section 5 (4: corpus, 5: random driver, 3: derived)."""
     rng = ctx.rng
     corp = [s for _, s in gen.corpus()]
@@ -60,6 +60,14 @@ def base_inputs(ctx, soup_n, trunc_n=0, lf_n=0, mb_n=0, case_n=0, corpus_trunc=0
     sp = gen.soup(rng, soup_n)
     ctx.add_cases("soup", sp)
     pool = corp + sp
+    if gen_n:
+        # programs of the construct grammar, half of them with one deleted delimiter (errors in every nesting context)
+        gp = []
+        for flt in (False, True):
+            progs, stats = gen_programs(ctx, flt, sim_n=gen_n // 2, fuel_sim=[8, 14])
+            gp.extend("".join(j["src"]) for j in progs)
+        ctx.add_cases("gen", gp)
+        pool = pool + gen.dedup(gp)
     if trunc_n:
         tr = []
         for s in rng.sample(pool, min(len(pool), trunc_n)):
@@ -226,7 +234,7 @@ def pick_samples(ctx, n=6):
 
 GENERIC = {
     # prop: (quick sizes, thorough sizes, events)
-    "C01": dict(q=dict(soup_n=5000, trunc_n=600, mb_n=300), t=dict(soup_n=60000, trunc_n=6000, mb_n=3000, corpus_trunc=400), events=True),
+    "C01": dict(q=dict(soup_n=5000, trunc_n=800, mb_n=300, gen_n=4000), t=dict(soup_n=60000, trunc_n=6000, mb_n=3000, corpus_trunc=400), events=True),
     "C02": dict(q=dict(soup_n=4000, trunc_n=300, mb_n=800), t=dict(soup_n=50000, trunc_n=4000, mb_n=8000), events=True),
     "C03": dict(q=dict(soup_n=3000, mb_n=2500, trunc_n=200), t=dict(soup_n=40000, mb_n=30000, trunc_n=2000), events=True),
     "C04": dict(q=dict(soup_n=3000, lf_n=1200, mb_n=300), t=dict(soup_n=40000, lf_n=15000, mb_n=3000), events=True),
@@ -235,8 +243,8 @@ GENERIC = {
     "C07": dict(q=dict(soup_n=3000, trunc_n=300, mb_n=300, extra=dict(string_family=5000)), t=dict(soup_n=30000, trunc_n=3000, mb_n=3000, extra=dict(string_family=80000)), events="all"),
     "C08": dict(q=dict(soup_n=2000, extra=dict(num_family=6000)), t=dict(soup_n=20000, extra=dict(num_family=150000)), events=False),
     "C11": dict(q=dict(soup_n=2000, extra=dict(oc_family=12000)), t=dict(soup_n=20000, extra=dict(oc_family=150000)), events=False),
-    "C09": dict(q=dict(soup_n=5000, trunc_n=600), t=dict(soup_n=60000, trunc_n=6000, corpus_trunc=400), events=False),
-    "C10": dict(q=dict(soup_n=5000, trunc_n=800), t=dict(soup_n=60000, trunc_n=8000, corpus_trunc=400), events=False),
+    "C09": dict(q=dict(soup_n=4000, trunc_n=800, gen_n=6000), t=dict(soup_n=60000, trunc_n=8000, corpus_trunc=400, gen_n=80000), events=True),
+    "C10": dict(q=dict(soup_n=4000, trunc_n=1000, gen_n=4000), t=dict(soup_n=60000, trunc_n=8000, corpus_trunc=400), events=False),
 }
 
 RULES = {
@@ -736,7 +744,44 @@ def run_gen_prop(ctx):
                    "position tables come from the harness and are re-derived by CertOK"])
 
 
-RUNNERS = {"C12": run_gen_prop, "C13": run_gen_prop, "C14": run_gen_prop, "C15": run_c15, "C16": run_c16, "C17": run_c17, "C18": run_c18, "C19": run_c19}
+def run_conf(ctx):
+    """Conformance of the real lexer with the operational model (drift report; never a verdict)."""
+    q = ctx.quick()
+    base_inputs(ctx, soup_n=4000 if q else 60000, trunc_n=300 if q else 3000, mb_n=200 if q else 2000, gen_n=2000 if q else 20000)
+    cases = list(ctx.cases.values())
+    steps = 0
+    drift = []
+    for variant, sep in (("dbg", True), ("nosep", False)):
+        paths = run_variant(ctx, variant, cases, events=True)
+        for pth in paths:
+            for rec in common.read_ndjson(pth):
+                steps += len(rec.get("events", []))
+        mon = common.monitor("CONF", paths, ctx.dir, workers_each=2, parallel=8, macro_sep=sep)
+        ctx.states += mon["states"]
+        ctx.transitions += mon["transitions"]
+        ctx.traces += mon["records"]
+        for cid, clause, count, witness in mon["verdicts"]:
+            drift.append((variant, cid, count, witness))
+        log("[CONF] %s: %d records, %.1fs, %d drifting cases" % (variant, mon["records"], mon["wall"], len(mon["verdicts"])))
+    import collections
+    sig = collections.Counter()
+    ex = {}
+    for variant, cid, count, w in drift:
+        key = (w[1], w[2], w[3])
+        sig[key] += 1
+        src = ctx.cases[cid]["src"]
+        if key not in ex or len(src) < len(ex[key]):
+            ex[key] = src
+    for key, n in sig.most_common(40):
+        print("DRIFT %4d %s %r" % (n, key, ex[key][:100]), flush=True)
+    ctx.extra["steps_total"] = steps
+    ctx.extra["drifting_cases"] = len(drift)
+    ctx.extra["drift_signatures"] = [{"phase": k[0], "mode": k[1], "field": k[2], "cases": n, "example": ex[k][:200]}
+                                     for k, n in sig.most_common(50)]
+    return finish(ctx, "model_checking", "conformance of recorded steps with spec/SasLexer.tla", [])
+
+
+RUNNERS = {"CONF": run_conf, "C12": run_gen_prop, "C13": run_gen_prop, "C14": run_gen_prop, "C15": run_c15, "C16": run_c16, "C17": run_c17, "C18": run_c18, "C19": run_c19}
 
 
 def run(prop, tier, seed, replay=None, keep=False):
